@@ -167,9 +167,15 @@ func TestVerifC13(t *testing.T) {
 			}
 			n := res[0] * res[1]
 			for a := 0; a < n; a++ {
+				// the surrounding pixels take values whose high or low byte is zero as well (a byte-wise
+				// scan for 00 00 must not be confused by neighbouring bytes)
+				for _, fillv := range []uint16{3000, 0x00FF, 0x0100, 1} {
+					c := c13bCase{Stage: "boson-parser", X: res[0], Y: res[1], Edge: edge, Pix: mk(res[0], res[1], fillv)}
+					c.Pix[a/res[0]][a%res[0]] = 0
+					try(c)
+				}
 				c := c13bCase{Stage: "boson-parser", X: res[0], Y: res[1], Edge: edge, Pix: mk(res[0], res[1], 3000)}
 				c.Pix[a/res[0]][a%res[0]] = 0
-				try(c)
 				for b := a + 1; b < n; b++ {
 					c2 := c13bCase{Stage: "boson-parser", X: res[0], Y: res[1], Edge: edge, Pix: mk(res[0], res[1], 3000)}
 					c2.Pix[a/res[0]][a%res[0]] = 0
@@ -199,6 +205,6 @@ func TestVerifC13(t *testing.T) {
 			w.Violate(sig, msg, c, len(items))
 		}
 	}
-	r.Rule = "Boson little-endian parser (convertRawBosonFrame): every single and every double zero-pixel position x edge-pixels 0..2 x resolutions 4x3/5x4/6x6/7x5 (border/interior boundary on every side, non-square), every pixel position x six byte-order-revealing values; six streams with bad frames through the real handleConn. Non-trivial = every case."
+	r.Rule = "Boson little-endian parser (convertRawBosonFrame): every single zero-pixel position (with surrounding values 3000, 0x00FF, 0x0100, 1) and every double zero-pixel position x edge-pixels 0..2 x resolutions 4x3/5x4/6x6/7x5 (border/interior boundary on every side, non-square), every pixel position x six byte-order-revealing values; six streams with bad frames through the real handleConn. Non-trivial = every case."
 	finish(t, r)
 }
